@@ -695,6 +695,14 @@ class Gen:
         fin_stmts = [st for g_ in groups for st in g_]
         cut = r.randint(0, len(fin_stmts))
         body += fin_stmts[:cut]
+        if self.fin and draw_stmts and r.random() < 0.25:
+            # a draw (in particular one with variable-dependent parameters) made only in some iterations: under the branch condition
+            # the variable is redrawn, otherwise it keeps its value
+            k_ = r.randrange(len(draw_stmts))
+            dv = draw_stmts[k_][1]
+            self.init.append(("assign", dv, ("poly", num(r.choice([0, 1])))))
+            draw_stmts[k_] = ("if", [(self.fin_cond_atom(), [draw_stmts[k_]])], None)
+            self.feat("draw-inside-branch")
         body += draw_stmts
         body += self.wrap_in_conditions(data_stmts, fin_stmts[cut:])
         if prof == "multiassign" or r.random() < 0.2:
@@ -768,6 +776,8 @@ class Gen:
             body = self.add_alias_reuse(body)
         if self.data and prof in ("discrete", "nested", "guarded", "multiassign", "mixed") and r.random() < 0.25:
             body = self.add_latch(body)
+        if self.data and prof in ("discrete", "nested", "guarded", "multiassign", "mixed") and r.random() < 0.2:
+            body = self.add_branch_reassigning_own_condition(body)
         guard = ("true",)
         if prof == "guarded" and r.random() < 0.15:
             # guard over a variable that is drawn in the init block and never assigned in the body: the loop is either
@@ -780,6 +790,15 @@ class Gen:
             self.feat("guard-over-initial-draw-only")
         elif prof == "guarded" or (self.fin and r.random() < 0.15):
             guard = self.make_guard()
+        if self.fin and self.data and guard != ("true",) and r.random() < 0.2:
+            # the body STARTS with an if / elif whose conditions are conjunctions (no plain assignment before it): the first flattened
+            # assignments carry guard && (c1 && c2); the recovered loop guard must still be the guard itself
+            zz = r.choice(self.data)
+            c1, c2, c3 = self.fin_cond_atom(), self.fin_cond_atom(), self.fin_cond_atom()
+            first = ("if", [(("and", c1, c2), [("assign", zz, ("poly", add(var(zz), num(1))))]),
+                            (("and", c3, c2), [("assign", zz, ("poly", add(var(zz), num(2))))])], None)
+            body = [first] + body
+            self.feat("body-starts-with-conjunctive-if")
         if self.fin and guard != ("true",) and r.random() < 0.15:
             # the whole body under one branch condition: states where the guard holds but the condition does not are stuck,
             # the loop has NOT terminated there (LoopGuardTransformer collapses first-level ifs)
@@ -820,6 +839,37 @@ class Gen:
         first = ("if", [(atom, [("assign", d1, ("poly", add(var(d1), num(1))))])], None)
         second = ("if", [(atom, [("assign", d2, ("poly", add(var(d2), num(r.choice([1, 2, 3])))))])], None)
         return body + [first, reassign, second]
+
+    def add_branch_reassigning_own_condition(self, body):
+        """elif / else-after-elif / && branches whose (second) condition reads a finite variable that the branch itself assigns and
+        then uses again, and nested ifs whose outer condition reads a variable assigned twice in the body: normalization must rename the
+        variable consistently in EVERY conjunct of the flattened conditions"""
+        r = self.rng
+        name = "h"
+        a, b = r.sample([F(0), F(1), F(2)], 2)
+        self.fin[name] = {a, b}
+        self.init.append(("assign", name, ("poly", num(r.choice([a, b])))))
+        z = r.choice(self.data)
+        if "j" not in self.fin:
+            self.fin["j"] = {F(0), F(1)}
+            self.init.append(("assign", "j", ("poly", num(0))))
+            body = [("assign", "j", ("draw", "Bernoulli", [num(r.choice([F(1, 2), F(1, 3), F(3, 4)]))]))] + body
+        shape = r.choice(["elif", "and", "nested"])
+        inc = lambda k: ("assign", z, ("poly", add(var(z), num(k))))
+        if shape == "elif":
+            st = [("if", [(("atom", var("j"), "==", num(1)), [inc(1)]),
+                          (("atom", var(name), "==", num(a)), [("assign", name, ("poly", num(b))), inc(10)])],
+                   [("assign", name, ("poly", num(a))), inc(100)])]
+        elif shape == "and":
+            st = [("if", [(("and", ("atom", var("j"), "==", num(0)), ("atom", var(name), "==", num(a))),
+                           [("assign", name, ("poly", num(b))), inc(10), ("assign", name, ("poly", add(mul(num(-1), var(name)), num(a + b))))])], None)]
+        else:
+            st = [("assign", name, ("choice", [(num(a), num(F(1, 2))), (num(b), num(F(1, 2)))])),
+                  ("if", [(("atom", var(name), "==", num(b)), [("if", [(("atom", var("j"), "==", num(0)), [inc(10)])], None)])], None),
+                  ("if", [(("atom", var("j"), "==", num(1)), [("assign", name, ("poly", num(a)))])], None)]
+        self.feat("branch-reassigns-own-condition-variable:" + shape)
+        pos = r.randint(1, len(body))
+        return body[:pos] + st + body[pos:]
 
     def add_latch(self, body):
         """a variable used only in the condition of an earlier branch and assigned only in a later branch of the same
